@@ -1,6 +1,7 @@
 import MemcVerif.Proofs.Cmds
 import MemcVerif.Proofs.Decimal
 import MemcVerif.Model.Policy
+import MemcVerif.Proofs.TablesTie
 /-!
 # C07 — counters: arithmetic, creation and error rules
 
@@ -167,6 +168,36 @@ theorem C07_update_under_policy (p : Policy) (now : Nat) (k : Key) (hd : Meta) (
   refine ⟨trivial, ?_⟩
   rw [hs2]; rfl
 
+/-- … the two refusals do not depend on memory either: 'do not create' on an absent key and 'non-numeric' on a value that
+    is not a number answer as without a policy and store nothing — the policy is not even asked to make room -/
+theorem C07_no_create_under_policy (p : Policy) (now : Nat) (k : Key) (hd : Meta) (d i : Nat) (inc : Bool)
+    (h : p.inner.vis now k = none) (hexp : hd.ttl = 0xffffffff) :
+    (Cmd.addDelta polOps p now hd k d i inc).2 = .error .notFound ∧
+    (Cmd.addDelta polOps p now hd k d i inc).1.usage = p.usage ∧
+    (Cmd.addDelta polOps p now hd k d i inc).1.inner.mem.lookup k = none := by
+  obtain ⟨h2, h3⟩ := get_vis_none h
+  simp only [Cmd.addDelta, polOps, Policy.get]
+  rcases hg : p.inner.get now k with ⟨s', res⟩
+  rw [hg] at h2 h3; simp only at h2 h3; subst h2
+  simp [hexp, h3]
+
+theorem C07_non_numeric_under_policy (p : Policy) (now : Nat) (k : Key) (hd : Meta) (d i : Nat) (inc : Bool) (x : Record)
+    (h : p.inner.vis now k = some x) (hp : parseU64 x.value = none) :
+    Cmd.addDelta polOps p now hd k d i inc = (p, .error .arithOnNonNumeric) := by
+  have hg := get_vis_some h
+  simp [Cmd.addDelta, polOps, Policy.get, hg, hp]
+
+/-- the creation rule and the arithmetic of `add_delta` as re-extracted from the source on this run (the expiration value
+    tested before creating, `wrapping_add`, the saturating subtraction) are the model's -/
+theorem C07_rules_are_the_sources :
+    Holds Gen.deltaRules (fun r =>
+      r.2.1 = 1 ∧ r.2.2.1 = 1 ∧ r.2.2.2 = 1 ∧
+      deltaOut (Cmd.addDelta memOps MemStore.init 0 (Meta.new 0 0 r.1) [107] 1 5 true).2 = none ∧
+      deltaOut (Cmd.addDelta memOps MemStore.init 0 (Meta.new 0 0 (r.1 - 1)) [107] 1 5 true).2 = some (1, 5) ∧
+      deltaOut (Cmd.addDelta memOps (counterStore 18446744073709551615) 0 (Meta.new 0 0 0) [107] 1 5 true).2 = some (2, 0) ∧
+      deltaOut (Cmd.addDelta memOps (counterStore 3) 0 (Meta.new 0 0 0) [107] 5 9 false).2 = some (2, 0)) :=
+  tie_delta_rules
+
 example : parseU64 (toDec 18446744073709551615) = some 18446744073709551615 := by decide
 example : parseU64 [43, 53] = some 5 := by decide            -- "+5": accepted by the code's parser
 example : parseU64 [45, 49] = none ∧ parseU64 [32, 53] = none ∧ parseU64 [] = none := by decide
@@ -186,3 +217,6 @@ end Memc
 #print axioms Memc.policy_set_cas0
 #print axioms Memc.C07_create_under_policy
 #print axioms Memc.C07_update_under_policy
+#print axioms Memc.C07_no_create_under_policy
+#print axioms Memc.C07_non_numeric_under_policy
+#print axioms Memc.C07_rules_are_the_sources
